@@ -83,6 +83,8 @@ RECURSIVE FE(_), FS(_), FD(_), FList(_,_,_)
 FE(e) == CASE e.k = "var" -> <<"var", e.name>>
            [] e.k \in {"acct", "asset", "str"} -> <<e.k, e.v>>
            [] e.k = "num" -> <<"num", ToString(NumValOf(e))>>
+           \* (a ratio with a numeral beyond TLC's integers: both parts as written, without leading zeros, unreduced)
+           [] e.k = "portion" /\ IsLongRatio(PortionLex(e)) -> <<"portionbig", RatioNum(PortionLex(e)), RatioDen(PortionLex(e))>>
            [] e.k = "portion" -> LET v == PortionValue(PortionLex(e))  g == GcdS(v.n, v.d) IN
                                  IF g = 0 THEN <<"portion", "0", "0">> ELSE <<"portion", ToString(v.n \div g), ToString(v.d \div g)>>
            [] e.k = "remaining" -> <<"remaining">>
